@@ -65,10 +65,11 @@ def run(ctx, chk):
     for l in sorted(int_loaders):
         f = prog.fn(l)
         n = loader_ext(l)
-        bm = tables.loader_bytemap(prog, eff, l)
         want = {j: 8 * (n - 1 - j) for j in range(n)}
-        chk.ob("C10.loader", "%s (%d bytes)" % (l, n), bm == want, "%s:%d" % (f.file, f.line), fn=l,
-               detail="" if bm == want else "byte map {offset: shift} is %s, big-endian is %s" % (bm, want))
+        for pi_, bm in enumerate(tables.loader_bytemaps(prog, eff, l)):
+            chk.ob("C10.loader", "%s (%d bytes) path %d" % (l, n, pi_), bm == want, "%s:%d" % (f.file, f.line), fn=l, key="loader:%s:%d" % (l, pi_),
+                   detail="" if bm == want else "byte map {offset: shift} is %s, big-endian is %s (a path of the loader - e.g. one taken only "
+                                                "for some addresses - assembles a different value)" % (bm, want))
     # float loaders delegate to an integer loader of the same width (bit cast): C15 checks the cast; here the width
     for l in sorted(set(used_loaders) - set(int_loaders)):
         f = prog.fn(l)
